@@ -24,6 +24,7 @@ type AVal struct {
 	B   bool    `json:"b,omitempty"`
 	S   *AStr   `json:"s,omitempty"`
 	M   int     `json:"m,omitempty"`
+	Decl int    `json:"decl,omitempty"`
 	Ps  []APair `json:"ps,omitempty"`
 	Vs  []*AVal `json:"vs,omitempty"`
 	Cnt int     `json:"cnt,omitempty"`
@@ -95,6 +96,15 @@ func AmfEncode(v *AVal) []byte {
 		} else {
 			b = append(b, 12)
 			u32(v.S.N)
+		}
+		b = append(b, v.S.Bytes()...)
+	case "lstr":
+		b = append(b, 12)
+		if v.Decl < 0 {
+			d := uint32(int64(1)<<32 + int64(v.Decl))
+			b = append(b, byte(d>>24), byte(d>>16), byte(d>>8), byte(d))
+		} else {
+			u32(v.Decl)
 		}
 		b = append(b, v.S.Bytes()...)
 	case "null":
